@@ -65,6 +65,34 @@ fn engine_probe(run: &mut Run) -> Result<(u64, u64, Vec<(Address, u64, u64)>, bo
     Ok((r["next"].as_u64().unwrap_or(0), r["waiting"].as_u64().unwrap_or(0), pool, genesis_exists))
 }
 
+/// the waiting set as the public methods list it: txpool_content (a scan of the whole table through `all()`)
+/// and txpool_contentFrom of the given accounts (range scans)
+fn rpc_pool(run: &mut Run, accounts: &BTreeSet<Address>) -> Result<(BTreeSet<(Address, u64)>, BTreeSet<(Address, u64)>), String> {
+    fn keys(v: &Value) -> BTreeSet<(Address, u64)> {
+        let mut out = BTreeSet::new();
+        if let Some(m) = v.get("pending").and_then(|x| x.as_object()) {
+            for (a, per) in m {
+                let Ok(ab) = hex::decode(a.trim_start_matches("0x")) else { continue };
+                if ab.len() != 20 { continue; }
+                if let Some(pm) = per.as_object() {
+                    for k in pm.keys() {
+                        let n = if let Some(h) = k.strip_prefix("0x") { u64::from_str_radix(h, 16).ok() } else { k.parse::<u64>().ok() };
+                        if let Some(n) = n { out.insert((Address::from_slice(&ab), n)); }
+                    }
+                }
+            }
+        }
+        out
+    }
+    let all = keys(&run.inst.rpc("txpool_content", json!([])).map_err(|e| format!("txpool_content: {:?}", e))?);
+    let mut from = BTreeSet::new();
+    for a in accounts {
+        let r = run.inst.rpc("txpool_contentFrom", json!([format!("0x{}", hex::encode(a.0))])).map_err(|e| format!("txpool_contentFrom: {:?}", e))?;
+        from.extend(keys(&r));
+    }
+    Ok((all, from))
+}
+
 fn blocks_of(run: &mut Run, height: Option<u64>) -> Vec<(u64, Hx)> {
     let mut out = Vec::new();
     if let Some(h) = height {
@@ -115,6 +143,7 @@ pub fn run(out: &Path, seed: u64, thorough: bool, prop: &str) -> Result<(), Box<
     let mut samples = Vec::new();
     let mut n_calls = 0u64;
     let mut n_sops = 0u64;
+    let mut n_pool_listings = 0u64;
     let mut aterms: Vec<String> = Vec::new();
     // the scripted histories of the search corpus are model cases as well
     let scripted: Vec<Vec<Op>> = crate::simcheck::corpus().into_iter().filter(|c| c.1 == "c05").map(|c| c.2).collect();
@@ -252,6 +281,23 @@ pub fn run(out: &Path, seed: u64, thorough: bool, prop: &str) -> Result<(), Box<
                 }
             }
             prev_pool = pool.clone();
+            // what the public pool methods list is exactly the pool table (which the model is compared with)
+            if prop == "c08" && problem.is_none() {
+                let table: BTreeSet<(Address, u64)> = pool.iter().map(|(a, n, _)| (*a, *n)).collect();
+                let accs: BTreeSet<Address> = accounts.iter().cloned().chain(table.iter().map(|x| x.0)).collect();
+                match rpc_pool(&mut run, &accs) {
+                    Ok((all, from)) => {
+                        n_pool_listings += 1;
+                        let fmt = |s: &BTreeSet<(Address, u64)>| s.iter().map(|(a, n)| format!("(0x{}, {})", hex::encode(a.0), n)).collect::<Vec<_>>().join(" ");
+                        if all != table || from != table {
+                            failures.push(json!({"what": format!("c08: after {} the pending-pool table holds [{}] but txpool_content lists [{}] and txpool_contentFrom (over all accounts) lists [{}]", resolved.kind(), fmt(&table), fmt(&all), fmt(&from)),
+                                "case": {"history": run.history()}}));
+                            problem = Some(String::new());
+                        }
+                    }
+                    Err(e) => { problem = Some(e); break; }
+                }
+            }
             for (a, n, b) in &pool {
                 if let Some(want) = last_parked.get(&(*a, *n)) {
                     if want != b && problem.is_none() {
@@ -327,7 +373,7 @@ pub fn run(out: &Path, seed: u64, thorough: bool, prop: &str) -> Result<(), Box<
     std::fs::write(out.join(format!("{}_cases.jsonl", prop)), jsonl)?;
     let meta = json!({
         "files": files,
-        "protocol_shape_cases": aterms.len(), "store_ops_in_protocol_shape_cases": n_sops,
+        "protocol_shape_cases": aterms.len(), "store_ops_in_protocol_shape_cases": n_sops, "public_pool_listings_compared_with_the_table": n_pool_listings,
         "evaluations": terms.len() as u64 + search_eval,
         "distinct_nontrivial": terms.len(),
         "rule": "histories from the structured generator run on the real engine behind the real RPC table (C05: with out-of-protocol calls injected at arbitrary positions incl. mid-block: wrong tx_idx, timestamp / hash differing from the open block, finalise with a wrong count, existing hash, commit / reorg / mine with an open block, both or neither encodings, undecodable raw transactions; C08: pool-edge scripts: park k+1, k+2 ..., deliver k at 9 / 10 / 11 blocks, replacements, stale, far-future, wrong chain). Each indexer call becomes a model call with the oracles' answers; after each call the answer class (rejected / ok with k receipts), next height, open-block count and pool are compared with Model/Engine.v. All histories are distinct PRNG draws. In addition the implementation-level search simcheck c05 (history with rejected calls vs without: same statuses and observations; every protocol violation rejected; no store mutation during a rejected call).",
